@@ -41,6 +41,11 @@ def plan(tier: str, seed: int) -> List[Dict[str, Any]]:
         out.append({'kind': 'api', 'variant': 'asan', 'env': asan, 'seed': seed, 'shard': i,
                     'cases': 220 if quick else 5000, 'timeout_s': 1500 if quick else 7200})
     for i in range(2 if quick else 8):
+        # device exceptions and interrupts at every IO call index, last-ops ring on and off: the exception paths of the run
+        # loops build Python objects (the last-ops list, the wrapped exception) that the caller then uses
+        out.append({'kind': 'device-faults', 'variant': 'asan', 'env': asan, 'seed': seed, 'shard': i,
+                    'cases': 25 if quick else 300, 'timeout_s': 1500 if quick else 7200})
+    for i in range(2 if quick else 8):
         out.append({'kind': 'files', 'variant': 'asan', 'env': asan, 'seed': seed, 'shard': i,
                     'cases': 800 if quick else 8000, 'timeout_s': 1500 if quick else 7200})
     for i in range(2 if quick else 8):
@@ -215,7 +220,8 @@ class ApiFuzzer:
             self.call('attr', lambda name=name: getattr(self.mem, name))
 
     def op_reinit(self) -> None:
-        w = self.rng.choice([8, 16, 32, 64])
+        # (a re-initialisation the constructor rejects - unsupported width - must leave the object usable or cleanly empty)
+        w = self.rng.choice([8, 16, 32, 64, 64, 7, 0, 128, 12])
         self.note('reinit', w)
         flat = self.safe_flat_max()
         # (whether the re-initialisation succeeds or raises, the larger of the two windows is assumed from here on)
@@ -629,8 +635,20 @@ print('VALGRIND-CHILD-DONE', counters.get('monitor_evaluations'))
 
 
 # ------------------------------------------------------------------------------ plumbing
+def shard_device_faults(spec: Dict[str, Any], journal: Any) -> Dict[str, Any]:
+    """C18's synchronous fault enumeration, run on the sanitizer build. its semantic verdicts belong to C18 and are only counted
+    here; what counts for C11 is that the process survives using everything the failed run handed back."""
+    from fjverif.checks import c18
+
+    res = c18.shard_sync(spec, journal)
+    counters = dict(res['counters'])
+    counters['device_fault_runs_under_asan'] = counters.get('monitor_evaluations', 0)
+    counters['semantic_divergences_seen'] = len(res['violations'])
+    return {'counters': counters, 'violations': [], 'hashes': res['hashes'], 'samples': [], 'evaluations': res['evaluations']}
+
+
 def run_shard(spec: Dict[str, Any], journal: Any) -> Dict[str, Any]:
-    result = {'engine': shard_engine, 'api': shard_api, 'files': shard_files, 'allocfault': shard_allocfault,
+    result = {'device-faults': shard_device_faults, 'engine': shard_engine, 'api': shard_api, 'files': shard_files, 'allocfault': shard_allocfault,
               'refcount': shard_refcount, 'coverage': shard_coverage, 'valgrind': shard_valgrind}[spec['kind']](spec, journal)
     return result
 
